@@ -211,6 +211,53 @@ def name_corpus(rng):
             yield ('longname-xml', 'xml', xml)
 
 
+def xml_vocabulary_corpus(rng):
+    """yields (label, decoder, bytes): small XML documents that use every child-element vocabulary docs/xml.md mentions for
+    composite values - the current one, the HISTORICAL one (Content / ContentId children named `binary` or `hash`, whose
+    contents 'SHOULD be disregarded') and names no version ever had - in typed positions (database-known properties), each
+    followed by every one of its byte prefixes and a few breakages inside the child. Whatever a reader does with an old or
+    unknown child element, it has to come back: a value, or an error."""
+    def doc(cls, body):
+        return '<roblox version="4"><Item class="%s" referent="R0"><Properties><string name="Name">n</string>%s</Properties></Item></roblox>' % (cls, body)
+    kids = ['<url>rbxassetid://1</url>', '<null></null>', '<hash>0123456789abcdef</hash>', '<binary>UmJ4LWRvbQ==</binary>', '<uri>rbxassetid://1</uri>', '<Ref>R0</Ref>', '<Ref>null</Ref>',
+            '<bogus>x</bogus>', '<hash></hash>', '<binary/>', '<hash><nested>1</nested></hash>', '<binary><![CDATA[x]]></binary>', '<hash>a</hash><url>b</url>', 'bare text']
+    bodies = []
+    for k in kids:
+        bodies.append(('Sound', '<Content name="SoundId">%s</Content>' % k))
+        bodies.append(('MeshPart', '<Content name="MeshContent">%s</Content>' % k))
+        bodies.append(('Decal', '<ContentId name="Texture">%s</ContentId>' % k))
+        bodies.append(('TextLabel', '<Font name="FontFace"><Family>%s</Family><Weight>400</Weight><Style>Normal</Style><CachedFaceId>%s</CachedFaceId></Font>' % (k, k)))
+        bodies.append(('Folder', '<Content name="Unknown1">%s</Content>' % k))
+    bodies += [('Part', '<Vector3 name="Size"><X>1</X><bogus>2</bogus><Z>3</Z></Vector3>'),
+               ('Part', '<CoordinateFrame name="CFrame"><X>1</X><Y>2</Y><Z>3</Z><R00>1</R00><hash>x</hash></CoordinateFrame>'),
+               ('Model', '<OptionalCoordinateFrame name="WorldPivotData"><hash>1</hash></OptionalCoordinateFrame>'),
+               ('Model', '<OptionalCoordinateFrame name="WorldPivotData"><CFrame><X>1</X><binary>2</binary></CFrame></OptionalCoordinateFrame>'),
+               ('Part', '<PhysicalProperties name="CustomPhysicalProperties"><CustomPhysics>true</CustomPhysics><hash>1</hash></PhysicalProperties>'),
+               ('Part', '<Color3 name="Color"><R>1</R><hash>1</hash></Color3>'),
+               ('Frame', '<UDim2 name="Size"><XS>1</XS><binary>1</binary></UDim2>'),
+               ('ObjectValue', '<Ref name="Value"><hash>R0</hash></Ref>'),
+               ('UnionOperation', '<SharedString name="MeshData2"><hash>x</hash></SharedString>'),
+               ('Part', '<UniqueId name="UniqueId"><hash>x</hash></UniqueId>'),
+               ('ParticleEmitter', '<NumberSequence name="Size"><hash>0 1 0 1 1 0</hash></NumberSequence>'),
+               ('Part', '<token name="Material"><binary>256</binary></token>')]
+    seen = set()
+    for i, (cls, body) in enumerate(bodies):
+        d = doc(cls, body).encode()
+        yield ('xml-vocab-%d' % i, 'xml', d)
+        start = d.find(b'<Properties>')
+        for cut in range(start, len(d)):
+            p = d[:cut]
+            if p not in seen:
+                seen.add(p)
+                yield ('xml-vocab-%d-prefix' % i, 'xml', p)
+        # breakages inside the value element
+        at = d.find(b'</', start + 60)
+        if at > 0:
+            yield ('xml-vocab-%d-broken-lt' % i, 'xml', d[:at] + b'<' + d[at:])
+            yield ('xml-vocab-%d-broken-amp' % i, 'xml', d[:at] + b'&nosuch;' + d[at:])
+            yield ('xml-vocab-%d-broken-ctrl' % i, 'xml', d[:at] + b'\x01' + d[at:])
+
+
 def make(path, seed):
     rng = random.Random(f'c13-{seed}')
     n = 0
@@ -223,6 +270,9 @@ def make(path, seed):
             out.write(json.dumps({'label': label, 'dec': dec, 'hex': data.hex()}) + '\n')
             n += 1
         for label, dec, data in name_corpus(rng):
+            out.write(json.dumps({'label': label, 'dec': dec, 'hex': data.hex()}) + '\n')
+            n += 1
+        for label, dec, data in xml_vocabulary_corpus(rng):
             out.write(json.dumps({'label': label, 'dec': dec, 'hex': data.hex()}) + '\n')
             n += 1
     return n
